@@ -213,8 +213,9 @@ impl<T: Qcow2IoOps> Qcow2Dev<T> {
                 return Err("read_at eof".into());
             } else {
                 // the top device is asking for read, which is usually
-                // caused by top device resize, so simply fake we provide
-                // data requested
+                // caused by top device resize; everything beyond the end
+                // of this (shorter) backing image reads as zeros
+                zero_buf!(buf);
                 return Ok(buf.len());
             }
         }
@@ -238,7 +239,10 @@ impl<T: Qcow2IoOps> Qcow2Dev<T> {
             // backed by data, rounded down to a block boundary.
             len = ((vsize - offset) as usize) & !bs_mask;
             if info.is_back_file() {
-                buf.len() - len
+                // the part beyond the end of this backing image reads as zeros
+                let tail = &mut buf[len..];
+                zero_buf!(tail);
+                tail.len()
             } else {
                 0
             }
